@@ -15,4 +15,6 @@ def check(ctx, rep):
     rep.assume('parso/pgen2/generator.py builds the tables the grammar text describes (see C08 for its structural part)')
     from ..rules import rxr as _src1
     _src1.src_1(ctx, rep)       # the source text is only decoded and cut into lines on its way to the tokenizer
+    from ..rules import tok as _tok15
+    _tok15.tok_15(ctx, rep)     # the dispatch types as NUMBER exactly what the Number pattern matches
     rep.note('Not decided: equality of the returned tree with the derivation (run-time behaviour of the engine).')
